@@ -1165,3 +1165,148 @@ Proof.
               ** rewrite cont_dels_cons in Hin. cbn [dels_of] in Hin. cbn [app]. rewrite cont_dels_cons. cbn [dels_of]. rewrite !in_app_iff in *. cbn in Hin.
                  destruct Hin as [Hin|[[Hin|Hin]|Hin]]; auto. exfalso. apply Ny. symmetry. exact Hin.
 Qed.
+
+(** ** beginning a command *)
+(** a thread with an empty continuation starts a command that the relation does not look at; the slab may gain
+    entries that are not pipe handlers *)
+Section EIdle.
+  Variables (st st' : wstate) (m m' : m14) (t : tid) (new : list instr).
+  Variables (p0 : Z) (xs : list Z) (pn : bool).
+  Hypothesis R : ERel ENone st m.
+  Hypothesis M1 : m14_owner m' = m14_owner m.
+  Hypothesis M2 : forall q, on_pipe q (m14_lsend m') = on_pipe q (m14_lsend m) ++ (if q =? p0 then xs else []).
+  Hypothesis M3 : m14_lsdone m' = m14_lsdone m.
+  Hypothesis M4 : m14_fwd m' = m14_fwd m.
+  Hypothesis M5 : m14_term m' = m14_term m.
+  Hypothesis M6 : forall q, memZ q (m14_panic m') = memZ q (m14_panic m) || ((q =? p0) && pn).
+  Hypothesis M7 : m14_exited m' = m14_exited m.
+  Hypothesis M8 : m14_bad m' = m14_bad m.
+  Hypothesis M9 : b_nthr (m14_b m') = b_nthr (m14_b m).
+  Hypothesis Hn : nthr st' = nthr st.
+  Hypothesis Ho : forall u, u <> t -> thr st' u = thr st u.
+  Hypothesis Hc : tcont (thr st t) = [].
+  Hypothesis Hc' : tcont (thr st' t) = new.
+  Hypothesis Nl : forall q, lpend q new = if q =? p0 then xs else [].
+  Hypothesis Nu : forall q, ufw q new = [].
+  Hypothesis Np : forall x q, ~ In (x, HPipe q) (pushes new).
+  Hypothesis Nh : forall j, In j new -> hq j.
+  Hypothesis Npn : forall m0 q, ~ In (ILock m0 (LPqPanic q)) new.
+  Hypothesis Hnd : cont_dels new = [].
+  Hypothesis Htp : tpipe (thr st' t) = tpipe (thr st t).
+  Hypothesis Hfin : tfinal (thr st' t) = (if pn then [panic_i p0] else []) ++ tfinal (thr st t).
+  Hypothesis Hcur : forall x, tcur (thr st' t) = Some (CLSend x) -> In x (on_pipe (tpipe (thr st t)) (m14_lsend m')).
+  Hypothesis Hsp : xs <> [] \/ pn = true ->
+                   wkr st t /\ tpipe (thr st t) = p0 /\ (pn = true -> exists x, In (x, HPipe p0) (pushes (tfinal (thr st t)))).
+  Hypothesis Hdl : dl st' = dl st.
+  Hypothesis Hold : forall x h, slab_get (sl st) x = Some h -> slab_get (sl st') x = Some h.
+  Hypothesis Hpipe : forall x q, slab_get (sl st') x = Some (HPipe q) -> slab_get (sl st) x = Some (HPipe q).
+  Hypothesis Hpp : ppsame st st'.
+
+  Lemma ei_other : forall u, wkr st u -> u <> t -> (if tpipe (thr st u) =? p0 then xs else []) = [] /\ ((tpipe (thr st u) =? p0) && pn) = false.
+  Proof.
+    intros u Hu Hne. destruct (Z.eqb_spec (tpipe (thr st u)) p0) as [E|E]; [|split; reflexivity].
+    assert (Z0 : ~ (xs <> [] \/ pn = true)).
+    { intro H. destruct (Hsp H) as [W [T _]]. apply Hne. apply (e_wuniq _ _ _ R u t Hu W). rewrite E, T. reflexivity. }
+    destruct (nil_dec xs) as [Ex|Ex]; [|exfalso; apply Z0; left; exact Ex].
+    destruct (Bool.bool_dec pn true) as [Ep|Ep]; [exfalso; apply Z0; right; exact Ep|].
+    apply not_true_is_false in Ep. rewrite Ex, Ep. split; reflexivity.
+  Qed.
+
+  Lemma e_idle : ERel ENone st' m'.
+  Proof.
+    assert (Pe : forall q, pexists (pps st' q) = pexists (pps st q)) by (intro q; apply Hpp).
+    assert (Pr : forall q, precvq (pps st' q) = precvq (pps st q)) by (intro q; apply Hpp).
+    assert (Pp : forall q, ppanic (pps st' q) = ppanic (pps st q)) by (intro q; apply Hpp).
+    assert (Tp : forall u, tpipe (thr st' u) = tpipe (thr st u)) by (intro u; destruct (Nat.eq_dec u t) as [->|E]; [exact Htp|rewrite Ho; auto]).
+    assert (Wk : forall u, wkr st' u <-> wkr st u) by (intro u; unfold wkr; rewrite Hn, Tp; tauto).
+    assert (Mc : (forall q, ufw q (mcont st') = ufw q (mcont st)) /\ (forall j, ~ hq j -> (In j (mcont st') <-> In j (mcont st)))).
+    { unfold mcont. destruct (Nat.eq_dec main t) as [E|E]; [|rewrite (Ho main E); split; [reflexivity|tauto]].
+      rewrite E, Hc, Hc'. split; [intro q; rewrite Nu; reflexivity|]. intros j Hj. split; [intro H; exfalso; apply Hj; apply Nh; exact H|intros []]. }
+    destruct Mc as [Uf Mi].
+    assert (Hd : forall m0 q d, In (ILock m0 (LPqHandler q d)) (mcont st') <-> In (ILock m0 (LPqHandler q d)) (mcont st))
+      by (intros m0 q d; apply (Mi (ILock m0 (LPqHandler q d))); intro Y; exact Y).
+    assert (Huf : forall m0 q msgs tm, In (IUnlock m0 (UPqFwd q msgs tm)) (mcont st') <-> In (IUnlock m0 (UPqFwd q msgs tm)) (mcont st))
+      by (intros m0 q msgs tm; apply (Mi (IUnlock m0 (UPqFwd q msgs tm))); intro Y; exact Y).
+    assert (Htm : forall q, hasterm q (mcont st') <-> hasterm q (mcont st)).
+    { intro q. unfold hasterm. split; intros [m0 [ms [b H]]]; exists m0, ms, b; apply Huf; exact H. }
+    assert (Pf : forall x q, In (x, HPipe q) (pushes (tfinal (thr st' t))) <-> In (x, HPipe q) (pushes (tfinal (thr st t)))).
+    { intros x q. rewrite Hfin, pushes_app. destruct pn; cbn; [|tauto]. tauto. }
+    assert (Tps : forall u x q, In (x, HPipe q) (tpushes (thr st' u)) <-> In (x, HPipe q) (tpushes (thr st u))).
+    { intros u x q. destruct (Nat.eq_dec u t) as [->|E]; [|rewrite Ho; tauto]. unfold tpushes. rewrite Hc, Hc', !in_app_iff, Pf.
+      split; [intros [H|H]; [exfalso; exact (Np x q H)|right; exact H]|intros [[]|H]; right; exact H]. }
+    assert (Pl : pipeline st' = pipeline st).
+    { unfold pipeline. rewrite Hdl. destruct (Nat.eq_dec main t) as [E|E]; [rewrite E, Hc, Hc', Hnd; reflexivity|rewrite (Ho main E); reflexivity]. }
+    assert (NoE : forall q, (forall x, slab_get (sl st) x <> Some (HPipe q)) -> forall x, slab_get (sl st') x <> Some (HPipe q)).
+    { intros q H x G. exact (H x (Hpipe x q G)). }
+    assert (Pg : forall q, prog14 st m q -> prog14 st' m' q).
+    { intros q [A|[[x [A B]]|[A|A]]].
+      - left. rewrite M5. exact A.
+      - right; left. exists x. rewrite Pl. split; [exact A|apply Hold; exact B].
+      - right; right; left. apply (Mi (hdel_i q) (fun Y => Y)). exact A.
+      - right; right; right. apply Htm. exact A. }
+    assert (Ex0 : xs <> [] \/ pn = true -> pexists (pps st p0) = true).
+    { intro H. destruct (Hsp H) as [W [T _]]. rewrite <- T. apply (e_wex _ _ _ R t W). }
+    assert (NoEx : forall q, pexists (pps st q) = false -> (if q =? p0 then xs else []) = [] /\ ((q =? p0) && pn) = false).
+    { intros q Hq. destruct (Z.eqb_spec q p0) as [->|Nq]; [|split; reflexivity].
+      assert (Z0 : ~ (xs <> [] \/ pn = true)) by (intro H; rewrite (Ex0 H) in Hq; discriminate Hq).
+      destruct (nil_dec xs) as [Ex|Ex]; [|exfalso; apply Z0; left; exact Ex].
+      destruct (Bool.bool_dec pn true) as [Ep|Ep]; [exfalso; apply Z0; right; exact Ep|].
+      apply not_true_is_false in Ep. rewrite Ex, Ep. split; reflexivity. }
+    constructor.
+    - rewrite M8. apply (e_bad _ _ _ R).
+    - rewrite M9, Hn. apply (e_nthr _ _ _ R).
+    - intros t0 q E. discriminate E.
+    - intros u q. rewrite M1, M9, Tp. apply (e_owner _ _ _ R).
+    - intros u u'. rewrite !Wk, !Tp. apply (e_wuniq _ _ _ R).
+    - intros u. rewrite Wk, Tp, Pe. apply (e_wex _ _ _ R).
+    - intros q. rewrite Pe. intro H. destruct (e_exw _ _ _ R q H) as [u [A B]]. exists u. rewrite Wk, Tp. auto.
+    - intros q. rewrite Pe. intro Hq. destruct (NoEx q Hq) as [N1 N2].
+      rewrite M2, M4, Pr, Pp, M5, M6, M7, M3, N1, N2, app_nil_r, orb_false_r.
+      destruct (e_noex _ _ _ R q Hq) as [E1 E2]. split; [apply NoE; exact E1|exact E2].
+    - intros q H. rewrite Pe. apply (e_ins _ _ _ R q).
+      destruct H as [[m0 [ms [tm H]]]|[m0 [d H]]]; [left; exists m0, ms, tm; apply Huf; exact H|right; exists m0, d; apply Hd; exact H].
+    - intros x y q G1 G2. apply (e_uniq _ _ _ R x y q); apply Hpipe; assumption.
+    - intros u Hu. cbn zeta. rewrite Tp, M2, M4, Uf, Pr. apply Wk in Hu. pose proof (e_ls _ _ _ R u Hu) as L. cbn zeta in L. rewrite L.
+      destruct (Nat.eq_dec u t) as [->|Hne].
+      + rewrite Hc, Hc', Nl. cbn [lpend flat_map]. rewrite <- !app_assoc. reflexivity.
+      + destruct (ei_other u Hu Hne) as [O1 _]. rewrite O1, app_nil_r, (Ho u Hne). reflexivity.
+    - intros u x Hu Hcu. rewrite Tp. apply Wk in Hu. destruct (Nat.eq_dec u t) as [->|E]; [exact (Hcur x Hcu)|].
+      rewrite (Ho u E) in Hcu. rewrite M2. apply in_or_app. left. apply (e_lscur _ _ _ R u x Hu Hcu).
+    - intros q x. rewrite M3, M4, Uf, Pr. apply (e_lsdone _ _ _ R).
+    - intros q. rewrite M5, Pr. intro H. destruct (e_term _ _ _ R q H) as [A [B [C [D E]]]].
+      split; [apply NoE; exact A|]. split; [intros u x Hin; apply (B u x); apply Tps; exact Hin|].
+      split; [intros m0 d Hin; apply (C m0 d); apply Hd; exact Hin|]. split; [intros m0 ms tm Hin; apply (D m0 ms tm); apply Huf; exact Hin|exact E].
+    - intros m0 q Hin. apply Hd in Hin. destruct (e_hdel _ _ _ R m0 q Hin) as [A [B C]].
+      split; [exact A|]. split; [apply NoE; exact B|]. intros u x H. apply (C u x). apply Tps. exact H.
+    - intros q Hin. rewrite Pr. apply Htm in Hin. destruct (e_hterm _ _ _ R q Hin) as [A [B C]].
+      split; [apply NoE; exact A|]. split; [|exact C]. intros u x H. apply (B u x). apply Tps. exact H.
+    - intros i0 r0 j Hm Hj. unfold mcont in *. destruct (Nat.eq_dec main t) as [E|E]; [|rewrite (Ho main E) in Hm; apply (e_hpos _ _ _ R i0 r0 j Hm Hj)].
+      rewrite E, Hc' in Hm. apply Nh. rewrite Hm. right. exact Hj.
+    - intros u j Hu Hj. destruct (Nat.eq_dec u t) as [->|E]; [rewrite Hc' in Hj; apply Nh; exact Hj|rewrite (Ho u E) in Hj; apply (e_hmain _ _ _ R u j Hu Hj)].
+    - intros u Hu. cbn zeta. rewrite Tp, M5, M6, Pp, Htm. apply Wk in Hu. intros H1 H2.
+      pose proof (e_panic _ _ _ R u Hu H1 H2) as Pn. cbn zeta in Pn. set (q := tpipe (thr st u)) in *.
+      destruct (Nat.eq_dec u t) as [->|Hne].
+      + rewrite Hc', Hfin. rewrite Hc in Pn. cbn [app] in Pn. rewrite orb_true_iff, Pn, andb_true_iff, !in_app_iff.
+        split.
+        * intros [[H|H]|[H E]]; auto. right. right. left. apply Z.eqb_eq in H. rewrite E, H. left. reflexivity.
+        * intros [H|[H|[H|H]]]; auto.
+          -- exfalso. exact (Npn _ _ H).
+          -- destruct pn eqn:Epn; [|destruct H]. destruct H as [H|[]]. unfold panic_i in H. injection H as _ E1.
+             right. split; [rewrite E1; apply Z.eqb_refl|reflexivity].
+      + destruct (ei_other u Hu Hne) as [_ O2]. fold q in O2. rewrite O2, orb_false_r, (Ho u Hne). exact Pn.
+    - intros u q m0 a b E. rewrite Wk, Tp. destruct (Nat.eq_dec u t) as [->|Hne]; [|rewrite (Ho u Hne) in E; apply (e_porder _ _ _ R u q m0 a b E)].
+      rewrite Hc', Hfin in E.
+      destruct (split_quiet new _ a b _ (fun i0 H0 E0 => Npn m0 q (eq_ind _ (fun z => In z new) H0 _ E0)) E) as [a' [E1 E2]].
+      destruct pn eqn:Epn.
+      * destruct a' as [|a0 a''].
+        -- cbn in E2. inversion E2; subst. destruct (Hsp (or_intror eq_refl)) as [W [T Hx]]. split; [reflexivity|]. split; [exact W|]. split; [symmetry; exact T|apply Hx; reflexivity].
+        -- cbn in E2. inversion E2; subst a0. apply (e_porder _ _ _ R t q m0 a'' b). rewrite Hc. cbn. assumption.
+      * cbn in E2. apply (e_porder _ _ _ R t q m0 a' b). rewrite Hc. exact E2.
+    - intros m0 q ms b Hin. apply Huf in Hin. rewrite (e_ufterm _ _ _ R m0 q ms b Hin), M6.
+      destruct (Z.eqb_spec q p0) as [->|Nq]; [|rewrite orb_false_r; reflexivity]. destruct pn eqn:Epn; [|rewrite orb_false_r; reflexivity].
+      exfalso. destruct (Hsp (or_intror eq_refl)) as [W [T Hx]]. destruct (Hx eq_refl) as [x Hx'].
+      destruct (e_hterm _ _ _ R p0) as [_ [B _]]; [exists m0, ms, b; exact Hin|]. apply (B t x). unfold tpushes. apply in_or_app. right. exact Hx'.
+    - intros u Hu. rewrite Tp. apply Wk in Hu. destruct (e_wprog _ _ _ R u Hu) as [[x H]|H]; [left; exists x; apply Tps; exact H|right; apply Pg; exact H].
+    - intros q. rewrite M7. intro H. apply Pg. apply (e_exited _ _ _ R q H).
+  Qed.
+End EIdle.
